@@ -230,9 +230,8 @@ Fixpoint latest_before (ta : N) (cur : event) (rest : list event) : event * list
   end.
 
 (** [match_preceded_by]: when [ts_b < ts_a] the latest such b is paired with a, [a] advances and
-    the b pointer stays on that b; otherwise one pointer advances: the *b* pointer in the pinned
-    tree, the a pointer with the proposed repair ([adv_a], regenerated from the Rust text as
-    [seq_pb_else_advances_a]). *)
+    the b pointer stays on that b; otherwise one pointer advances: the a pointer since fix 49473e7 (the
+    *b* pointer before it); [adv_a] is regenerated from the Rust text as [seq_pb_else_advances_a]. *)
 Fixpoint preceded_by_gen (adv_a : bool) (w : event -> event -> bool) (la : list event) : list event -> list pair :=
   match la with
   | [] => fun _ => []
@@ -374,16 +373,3 @@ Definition null_text : bytes := [110; 117; 108; 108].
 (** times that the u64 cast orders like the integers: present and non-negative *)
 Definition time_ok (e : event) : bool :=
   match e_time e with Some z => (0 <=? z)%Z && (z <? 2 ^ 63)%Z | None => false end.
-
-(** KnownClass of PRECEDED BY: in the group the earliest a-row is not later than the earliest b-row
-    although some a-row has an earlier b-row — the sweep then advances the b pointer to the end and
-    returns nothing for the group. *)
-Definition preceded_blocked (g : group) : bool :=
-  match g_a g, g_b g with
-  | a0 :: _, b0 :: _ =>
-      (ts a0 <=? ts b0) && existsb (fun a => existsb (fun b => ts b <? ts a) (g_b g)) (g_a g)
-  | _, _ => false
-  end.
-
-(** the class only exists while the final [else] branch of [match_preceded_by] advances the b pointer *)
-Definition preceded_known (g : group) : bool := negb seq_pb_else_advances_a && preceded_blocked g.
